@@ -347,20 +347,25 @@ impl<'c, T: Sut> Sim<'c, T> {
     fn reread_all(&mut self) -> R<()> {
         self.cx.hit(Probe::reread_all);
         let saved_full = self.cx.full;
+        let saved_oob = self.cx.oob;
         for i in 0..self.pop.len() {
             let n = self.pop[i].model.len();
             // long models: full battery on a sample, cheap pass on the rest
             for mi in 0..n {
                 self.cx.full = saved_full && (n <= 24 || mi % 7 == (self.step % 7));
+                // out-of-bounds probes cost a caught panic each: probe a rotating sample
+                self.cx.oob = saved_oob && (n <= 3 || mi % 4 == (self.step % 4));
                 let r = self.check_handle(i, mi, Ctx::Reread, false);
                 if r.is_err() {
                     self.cx.full = saved_full;
+                    self.cx.oob = saved_oob;
                     return r;
                 }
             }
             self.cx.hits(Probe::handles_reread, n as u64);
         }
         self.cx.full = saved_full;
+        self.cx.oob = saved_oob;
         Ok(())
     }
 
@@ -847,7 +852,7 @@ impl<'c, T: Sut> Sim<'c, T> {
         }
         self.event = true;
         self.state_steps += 1;
-        if third && self.caps.serde {
+        if third && self.caps.serde && self.pop[si].model.iter().all(|(_, v)| v.json_safe()) {
             // clone_from must produce exactly the same observable result as clone: compare the
             // serialised forms of dst and of a fresh clone of src.
             let owner = self.fresh_owner();
@@ -925,7 +930,7 @@ impl<'c, T: Sut> Sim<'c, T> {
             return Ok(());
         }
         let ti = t % self.pop.len();
-        if self.pop[ti].model.iter().any(|(_, v)| v.has_nonfinite()) {
+        if self.pop[ti].model.iter().any(|(_, v)| !v.json_safe()) {
             // JSON cannot carry non-finite floats (format limitation, not a crate property)
             return Ok(());
         }
@@ -1008,8 +1013,14 @@ impl<'c, T: Sut> Sim<'c, T> {
         }
         let ti = t % self.pop.len();
         let sidx: Vec<usize> = srcs.iter().map(|s| s % self.pop.len()).collect();
-        for i in self.peers(ti) {
-            if self.pop[i].no_reserve || sidx.contains(&i) {
+        let peers = self.peers(ti);
+        if peers.iter().any(|p| sidx.contains(p)) {
+            // a region cannot be borrowed as its own source; skip for the whole group so that
+            // lockstep members keep receiving identical histories
+            return Ok(());
+        }
+        for i in peers {
+            if self.pop[i].no_reserve {
                 continue;
             }
             let owner = self.pop[i].owner;
@@ -1299,6 +1310,7 @@ impl<'c, T: Sut> Sim<'c, T> {
                     match r {
                         Ok(h) => {
                             let inst = &mut self.pop[b];
+                            Self::note_stats(inst, coded, v);
                             inst.model.push((h, v.clone()));
                             inst.pushes_since_reset += 1;
                         }
@@ -1327,7 +1339,7 @@ impl<'c, T: Sut> Sim<'c, T> {
         if self.caps.serde {
             for (gid, prop) in gids {
                 let members: Vec<usize> = (0..self.pop.len()).filter(|i| self.pop[*i].group == Some(gid)).collect();
-                if members.len() < 2 || members.iter().any(|i| self.pop[*i].model.iter().any(|(_, v)| v.has_nonfinite())) {
+                if members.len() < 2 || members.iter().any(|i| self.pop[*i].model.iter().any(|(_, v)| !v.json_safe())) {
                     continue;
                 }
                 let mut texts: Vec<(u32, String)> = Vec::new();
